@@ -99,7 +99,16 @@ func BigDecimalFloatToUint(value *apd.Decimal) (uint64, error) {
 
 // big.Float to other
 
+// Beyond this binary exponent, the decimal exponent is certain to be outside of
+// what apd.Decimal accepts (apd.MaxExponent = 100000, which is about 2^332193).
+const maxBigFloatBase2ExponentForAPD = 332200
+
 func BigFloatToPBigDecimalFloat(value *big.Float) (*apd.Decimal, error) {
+	// Producing the decimal digits takes time quadratic in the exponent, so
+	// refuse up front what apd would refuse afterwards anyway.
+	if exp := value.MantExp(nil); exp > maxBigFloatBase2ExponentForAPD || exp < -maxBigFloatBase2ExponentForAPD {
+		return nil, fmt.Errorf("big float with binary exponent %v is out of range for a decimal float", exp)
+	}
 	d, _, err := apd.NewFromString(BigFloatToString(value))
 	return d, err
 }
